@@ -28,6 +28,14 @@ def _post_create_range_dim(name, start, stop, step, size, dtype, result):
     if c is None:
         return True
     if np.dtype(dtype) != np.float64:
+        # other coordinate precisions: the lattice checks below assume doubles, but the recorded step is the requested
+        # step whatever the precision of the coordinates
+        if np.dtype(dtype).kind == "f" and step is not None and _fin(start, stop, step) and step > 0 and stop >= start:
+            c.mon("create_range_dim.step_attr_other_dtypes")
+            got = result.attrs.get("step")
+            if got is None or float(got) != float(step):
+                c.violate("range:step_attr", "range:step_attr:non_float64_coordinates", observed=None if got is None else float(got), expected=float(step),
+                          spec={"kind": "range", "start": float(start), "stop": float(stop), "step": step, "size": size, "dtype": str(np.dtype(dtype))})
         c.ood("range:dtype_not_float64")
         return True
     st = step
@@ -193,6 +201,8 @@ def judge_range(ctx, start, stop, step, size, via):
 
     spec = {"kind": "range", "start": start, "stop": stop, "step": step, "size": size, "via": via}
     def call():
+        if via == "range32":
+            return D.create_range_dim("x", start, stop, step=step, dtype=np.float32)
         if via == "range":
             return D.create_range_dim("x", start, stop, step=step, size=size)
         elif via == "time":
@@ -330,7 +340,7 @@ def run(ctx):
                     if k % ctx.nshards != ctx.shard:
                         continue
                     stop = start + (n + frac) * step
-                    via = rng.choice(["range", "range", "time", "freq", "time_both"])
+                    via = rng.choice(["range", "range", "time", "freq", "time_both"] + (["range32"] if n <= 1000 else []))
                     if via == "time" and abs(1 / step - round(1 / step)) < 1e-9 and rng.random() < 0.5:
                         via = "time_sr"
                     ctx.case(("range", via, "whole" if frac == 0 else "partial", "n0" if n == 0 else "n1" if n == 1 else "n>1"),
